@@ -146,3 +146,64 @@ Example C06_concrete :
     [CInitEoq 0; CWEoq 0; CInitEoq 1; CWEoq 1; CInitDone; CFallback; CFallback; CFallback; CExit; CBar]
     [31; 61; 91] [10; 20; 30] = 0.
 Proof. vm_compute. reflexivity. Qed.
+
+(* ---- error paths: documented refusals under MPI (finding F23) ----
+   a world of synchronising collectives; a rank = the list of calls it enters until it returns
+   or raises (Model/MpiWrite.v, end) *)
+
+(* the executable step is exactly the relation *)
+Theorem C06_collective_step_executable :
+  forall w w1 : list (list nat), cstep w w1 <-> cstep_fun w = Some w1.
+Proof. exact cstep_fun_spec. Qed.
+Print Assumptions C06_collective_step_executable.
+
+(* every rank returns iff all ranks enter the same sequence of collective calls - for every
+   number of ranks and every call sequence *)
+Theorem C06_collectives_terminate_iff_aligned :
+  forall w : list (list nat), cterminates w <-> aligned w = true.
+Proof. exact cterminates_iff_aligned. Qed.
+Print Assumptions C06_collectives_terminate_iff_aligned.
+
+(* ... and otherwise the world reaches a state in which some rank has not returned and no
+   collective can complete any more *)
+Theorem C06_misaligned_world_gets_stuck :
+  forall w : list (list nat), aligned w = false -> exists w', creach w w' /\ cstuck w'.
+Proof. exact not_aligned_reaches_stuck. Qed.
+Print Assumptions C06_misaligned_world_gets_stuck.
+
+(* a refusal decided by every rank at the same point of the protocol: all ranks return, for
+   every world size, every prefix and every continuation of the caller *)
+Theorem C06_refusal_all_ranks_terminates :
+  forall n (pre next : list nat), cterminates (world_of n (refuse_all pre next)).
+Proof. exact refusal_all_ranks_terminates. Qed.
+Print Assumptions C06_refusal_all_ranks_terminates.
+
+(* a refusal that only some ranks detect (root-only check behind `if on_worker(): return`,
+   the writer rank opening the cache, the root reading the data, a job raising on a worker)
+   while the others still have a collective ahead: never terminates on all ranks, whatever the
+   caller does afterwards *)
+Theorem C06_refusal_some_ranks_blocks :
+  forall n (who : nat -> bool) (pre body next : list nat) r1 r2,
+  r1 < n -> r2 < n -> who r1 = true -> who r2 = false -> body <> [] ->
+  ~ cterminates (world_of n (refuse_some who pre body next)).
+Proof. exact refusal_some_ranks_blocks. Qed.
+Print Assumptions C06_refusal_some_ranks_blocks.
+
+Theorem C06_refusal_some_ranks_stuck :
+  forall n (who : nat -> bool) (pre body next : list nat) r1 r2,
+  r1 < n -> r2 < n -> who r1 = true -> who r2 = false -> body <> [] ->
+  exists w', creach (world_of n (refuse_some who pre body next)) w' /\ cstuck w'.
+Proof. exact refusal_some_ranks_stuck. Qed.
+Print Assumptions C06_refusal_some_ranks_stuck.
+
+(* non-vacuity: three ranks, a probe larger than the random sample.  Checked on every rank
+   before `if on_worker(): return None`: all ranks raise and meet in the caller's barrier (8);
+   checked behind it: only the root raises and enters the barrier, ranks 1 and 2 wait in
+   bcast(patch_centers, root=0) (17) - the checker used by the harness accepts the first run
+   (code 0) and reports "some rank did not return" (flag1) for the second *)
+Example C06_refusal_concrete :
+  aligned (world_of 3 (refuse_all [] [8])) = true /\
+  aligned (world_of 3 (refuse_some (fun r => r =? 0) [] [17; 33; 17; 40] [8])) = false /\
+  c06_refusal_case [world_of 3 (refuse_all [] [8; 17; 17])] true true true = 0 /\
+  c06_refusal_case [[[8]; [17]; [17]]] false true true = 2.
+Proof. vm_compute. repeat split; reflexivity. Qed.
